@@ -6,8 +6,10 @@ from . import c01
 PID = "C10"
 
 QUICK = [
-    ("rebind", {"Fam": "<- FamRebind", "LitPool": "<- Lits2", "Names": "<- Names2", "BinOps": "<- Ops1", "MaxN": "3",
+    ("rebind", {"Fam": "<- FamRebind", "LitPool": "<- Lits2", "Names": "<- Names2", "BinOps": "<- Ops1", "MaxN": "2",
                 "MaxStk": "2", "MaxStmts": "2"}, None),
+    ("rebind3", {"Fam": "<- FamRebind", "LitPool": "<- Lits1", "Names": "<- Names2", "BinOps": "<- Ops1", "MaxN": "1",
+                 "MaxStk": "1", "MaxStmts": "3"}, None),
     ("scopemod", {"Fam": "<- FamScopeMod", "LitPool": "<- Lits2", "Names": "<- Names3", "BinOps": "<- Ops2",
                   "FldNames": "<- Flds2", "Prelude": "<- PreData", "MaxN": "6", "MaxStk": "2", "MaxCtx": "2",
                   "MaxStmts": "2", "MaxModStmts": "2"}, (1500, 60)),
